@@ -154,7 +154,21 @@ func (ArchLinux) Package(info *nfpm.Info, w io.Writer) error {
 		return fmt.Errorf("create mtree: %w", err)
 	}
 
-	return createScripts(info, tw)
+	if err := createScripts(info, tw); err != nil {
+		return err
+	}
+
+	// the deferred Close calls above only clean up after an earlier error; a
+	// failure to flush the archive must be reported
+	if err := tw.Close(); err != nil {
+		return fmt.Errorf("close tar: %w", err)
+	}
+
+	if err := zw.Close(); err != nil {
+		return fmt.Errorf("close zstd: %w", err)
+	}
+
+	return nil
 }
 
 // ConventionalExtension returns the file name conventionally used for Arch Linux packages
